@@ -354,65 +354,11 @@ End ExpandsSec.
 
 (** Apply [fq] to every qubit position, [fe] to every expression position, [fm] to every
     memory-reference position and [fp] to the text of a LOAD-MEMORY pragma. *)
-Definition map_operand (fm : memref -> memref) (o : operand) : operand :=
-  match o with ORef m => ORef (fm m) | OInt _ => o end.
-
-Definition map_instr (fq : qubit -> qubit) (fe : expr -> expr) (fm : memref -> memref)
-           (fp : option pdata -> option pdata) (i : instr) : instr :=
-  match i with
-  | IGate nm ps qs => IGate nm (map fe ps) (map fq qs)
-  | IMeasure mn q t => IMeasure mn (fq q) (option_map fm t)
-  | IReset q => IReset (option_map fq q)
-  | IFence qs => IFence (map fq qs)
-  | IDelay qs fs d => IDelay (map fq qs) fs (fe d)
-  | IPulse b f w => IPulse b (fmap_q fq f) (wmap_e fe w)
-  | ICapture b f m w => ICapture b (fmap_q fq f) (fm m) (wmap_e fe w)
-  | IRawCapture b f d m => IRawCapture b (fmap_q fq f) (fe d) (fm m)
-  | IFrameSet k f e => IFrameSet k (fmap_q fq f) (fe e)
-  | ISwapPhases f g => ISwapPhases (fmap_q fq f) (fmap_q fq g)
-  | IMove d s => IMove (fm d) (map_operand fm s)
-  | ILoad d s o => ILoad (fm d) s (fm o)
-  | IDeclare _ _ _ => i
-  | IPragma nm args data => IPragma nm args (if N.eqb nm load_memory then fp data else data)
-  | IOther _ => i
-  end.
-
 (** memory references inside an expression *)
-Fixpoint emap_m (fm : memref -> memref) (e : expr) : expr :=
-  match e with
-  | EAddr m => EAddr (fm m)
-  | ENeg x => ENeg (emap_m fm x)
-  | EBin op l r => EBin op (emap_m fm l) (emap_m fm r)
-  | EFun f x => EFun f (emap_m fm x)
-  | _ => e
-  end.
-
 (** Gate calibration: "the gate's qubits and parameters substituted for the calibration's
     variables", everything else as written. *)
-Definition spec_gate (c : gcal) (ps : list expr) (qs : list qubit) : list instr :=
-  map (map_instr (qsub (qubit_bindings (gc_qubits c) qs)) (esub (param_bindings (gc_params c) ps))
-                 (fun m => m) (fun d => d))
-      (gc_body c).
-
 (** Measurement calibration: "its qubit replaces the qubit variable and its target replaces uses of
     the target name, and other memory references stay as written". *)
-Definition retarget_memref (formal : option N) (t : option memref) (m : memref) : memref :=
-  match formal, t with
-  | Some f, Some tm => if N.eqb (fst m) f then tm else m
-  | _, _ => m
-  end.
-
-Definition retarget_pdata (formal : option N) (t : option memref) (d : option pdata) : option pdata :=
-  match formal, t, d with
-  | Some f, Some tm, Some (PName n) => if N.eqb n f then Some (PRef tm) else d
-  | _, _, _ => d
-  end.
-
-Definition spec_meas (c : mcal) (q : qubit) (t : option memref) : list instr :=
-  map (map_instr (qsub (meas_qubit_bindings c q)) (emap_m (retarget_memref (mc_target c) t))
-                 (retarget_memref (mc_target c) t) (retarget_pdata (mc_target c) t))
-      (mc_body c).
-
 Lemma map_id {A} (l : list A) : map (fun x => x) l = l.
 Proof. apply map_id. Qed.
 
@@ -561,21 +507,6 @@ Lemma subst_meas_spec_refuted :
 Proof. exists kf_mcal, (QF 0), (Some (2%N, 1%N)). repeat split; vm_compute; discriminate. Qed.
 
 (** match and substitute, as specified *)
-Definition instantiate_spec (cs : cals) (i : instr) : option (list instr * calsrc) :=
-  match i with
-  | IGate nm ps qs =>
-      match gate_match (gcals cs) nm ps qs with
-      | Some c => Some (spec_gate c ps qs, CSGate (gc_name c) (gc_params c) (gc_qubits c))
-      | None => None
-      end
-  | IMeasure mn q t =>
-      match meas_match (mcals cs) mn q t with
-      | Some c => Some (spec_meas c q t, CSMeas (mc_name c) (mc_qubit c) (mc_target c))
-      | None => None
-      end
-  | _ => None
-  end.
-
 Lemma find_some_prop {A} (f : A -> bool) l x : find f l = Some x -> In x l /\ f x = true.
 Proof. apply find_some. Qed.
 
@@ -1787,4 +1718,44 @@ Proof.
   assert (He : expand (instantiate cs) fuel [] i = Ok (Some o)).
   { rewrite <- expand_d_sim, Hd. reflexivity. }
   apply expand_sound in He. eapply (proj1 (Expands_no_declare_mut cs Hc)); eauto.
+Qed.
+
+(** ** the flat-expansion instance checker *)
+
+Lemma Expands_flat inst i body src :
+  inst i = Some (body, src) -> (forall j, In j body -> inst j = None) ->
+  Expands inst [] i (Some body).
+Proof.
+  intros Hi Hb. eapply Ex_match; [intros [] | exact Hi |].
+  assert (G : forall l, (forall j, In j l -> inst j = None) -> ExpandsList inst [i] l l).
+  { induction l as [|j t IH]; intro H; [constructor|]. apply EL_keep.
+    - apply Ex_nomatch; [|apply H; left; reflexivity].
+      intros [E|[]]. subst j. rewrite (H i) in Hi; [discriminate | left; reflexivity].
+    - apply IH. intros y Hy. apply H. right. exact Hy. }
+  apply G. exact Hb.
+Qed.
+
+(** If the specified body of the calibration matching [i] needs no further expansion, the specified
+    result of expanding [i] is that body — and that is what [chk_flat_spec] demands of the
+    implementation's [Calibrations::expand]. *)
+Lemma chk_flat_spec_sound cs i o body src :
+  chk_flat_spec cs i o = true ->
+  instantiate_spec cs i = Some (body, src) -> (forall j, In j body -> instantiate_spec cs j = None) ->
+  o = Some body /\ Expands (instantiate_spec cs) [] i o.
+Proof.
+  unfold chk_flat_spec. intros H Hi Hb. rewrite Hi in H.
+  assert (E : forallb (fun j => negb (is_some (instantiate_spec cs j))) body = true).
+  { apply forallb_forall. intros j Hj. rewrite (Hb j Hj). reflexivity. }
+  rewrite E in H.
+  apply (option_eqb_spec (list_eqb instr_eqb) (list_eqb_spec instr_eqb instr_eqb_spec)) in H.
+  subst o. split; [reflexivity|]. eapply Expands_flat; eauto.
+Qed.
+
+Lemma chk_flat_spec_nomatch cs i o :
+  chk_flat_spec cs i o = true -> instantiate_spec cs i = None ->
+  o = None /\ Expands (instantiate_spec cs) [] i o.
+Proof.
+  unfold chk_flat_spec. intros H Hi. rewrite Hi in H.
+  apply (option_eqb_spec (list_eqb instr_eqb) (list_eqb_spec instr_eqb instr_eqb_spec)) in H.
+  subst o. split; [reflexivity|]. apply Ex_nomatch; [intros [] | exact Hi].
 Qed.
